@@ -42,6 +42,7 @@ def extract(obj, path="", out=None, derived=True):
         out.append((path + ".width", "dim", float(obj.width)))
         if derived:
             out.append((path + ".vertices", "ring", pts(obj.vertices)))
+            out.append((path + ".shapely_object", "ring", pts(obj.shapely_object.exterior.coords)))
     elif isinstance(obj, Circle):
         out.append((path + ".center", "pt", pt(obj.center)))
         out.append((path + ".radius", "dim", float(obj.radius)))
@@ -49,6 +50,8 @@ def extract(obj, path="", out=None, derived=True):
         v = pts(obj.vertices)
         out.append((path + ".vertices", "ring", v))
         out.append((path + ".area", "dim", abs(geom.polygon_area(v))))
+        if derived:
+            out.append((path + ".shapely_object", "ring", pts(obj.shapely_object.exterior.coords)))
     elif isinstance(obj, ShapeGroup):
         for i, s in enumerate(obj.shapes):
             extract(s, "%s.shapes[%d]" % (path, i), out, derived)
